@@ -59,11 +59,14 @@ func (c12) Cases(tier string, seed int64, kf *KnownFindings) []Case {
 }
 
 type corpusEntry struct {
-	encode bool
-	val    interface{} // encode input (shared, read-only)
-	wire   []byte      // decode input (shared, read-only)
-	expect string      // expected result class
-	what   string
+	// damaged: not a valid message; only the outcome category (value / error / panic class) is
+	// compared, because what a damaged map decodes to may depend on Go's map iteration order
+	damaged bool
+	encode  bool
+	val     interface{} // encode input (shared, read-only)
+	wire    []byte      // decode input (shared, read-only)
+	expect  string      // expected result class
+	what    string
 }
 
 var instKinds = []string{"NewSerializer", "NewEncoder+NewDecoder", "pools"}
@@ -123,12 +126,24 @@ func mergeMaps(tm map[string]reflect.Type, nm map[string]string, v interface{}) 
 	return true
 }
 
+// errClass: how an error result is compared. C12 compares error PRESENCE only: the text of an
+// error for damaged input may legitimately depend on Go's map iteration order (which entry of a
+// decoded map fails its conversion first), so it is not a function of the call alone.
+var errClassWithMessage = false
+
+func errClass(err error) string {
+	if errClassWithMessage {
+		return "err:" + MaskErr(err)
+	}
+	return "err"
+}
+
 func resultClassEnc(b []byte, err error, pi *PanicInfo, multi bool) string {
 	switch {
 	case pi != nil:
 		return pi.Class
 	case err != nil:
-		return "err:" + MaskErr(err)
+		return errClass(err)
 	}
 	if !multi {
 		return fmt.Sprintf("bytes:%x", Hash64(string(b)))
@@ -145,7 +160,7 @@ func resultClassDec(v interface{}, err error, pi *PanicInfo) string {
 	case pi != nil:
 		return pi.Class
 	case err != nil:
-		return "err:" + MaskErr(err)
+		return errClass(err)
 	}
 	d := safeDenote(v, map[string]string{})
 	if d == nil {
@@ -176,10 +191,10 @@ func buildCorpus(seed int64, env *Env, tm map[string]reflect.Type, nm map[string
 			}
 			corpus = append(corpus, corpusEntry{wire: b, what: "decode valid " + e.Name})
 			if len(b) > 2 {
-				corpus = append(corpus, corpusEntry{wire: append([]byte{}, b[:1+r.Intn(len(b)-1)]...), what: "decode truncated " + e.Name})
+				corpus = append(corpus, corpusEntry{damaged: true, wire: append([]byte{}, b[:1+r.Intn(len(b)-1)]...), what: "decode truncated " + e.Name})
 				m := append([]byte{}, b...)
 				m[r.Intn(len(m))] ^= byte(1 << uint(r.Intn(8)))
-				corpus = append(corpus, corpusEntry{wire: m, what: "decode flipped " + e.Name})
+				corpus = append(corpus, corpusEntry{damaged: true, wire: m, what: "decode flipped " + e.Name})
 			}
 		}
 	}
@@ -193,10 +208,16 @@ func buildCorpus(seed int64, env *Env, tm map[string]reflect.Type, nm map[string
 		ls := strings.Repeat(string(rune('A'+k)), 3000)
 		corpus = append(corpus, corpusEntry{encode: true, val: ls, what: "encode top-level long string"})
 	}
+	// messages naming classes the type map does not know, under many different qualified names
+	for k := 0; k < 60; k++ {
+		o := hspec.Object(fmt.Sprintf("p%dx%d.Inner", k%7, k), []string{"a", "s"}, hspec.Int(int32(k)), hspec.String("q"))
+		b, _ := hspec.Encode(o, hspec.Canonical{}, hspec.EncOpts{})
+		corpus = append(corpus, corpusEntry{damaged: true, wire: b, what: "decode unknown qualified class"})
+	}
 	for k := 0; k < 40; k++ {
 		g := make([]byte, 1+r.Intn(24))
 		r.Read(g)
-		corpus = append(corpus, corpusEntry{wire: g, what: "decode random"})
+		corpus = append(corpus, corpusEntry{damaged: true, wire: g, what: "decode random"})
 	}
 	return corpus
 }
@@ -229,6 +250,9 @@ func (in *instance) run(e *corpusEntry, multi bool) string {
 			v, err = in.dec.Decode(e.wire)
 		}
 	})
+	if e.damaged && pi == nil && err == nil {
+		return "value"
+	}
 	return resultClassDec(v, err, pi)
 }
 
@@ -254,6 +278,10 @@ func (c12) Run(c Case, env *Env) Result {
 			res.Count("corpus_entries_nondeterministic_alone", 1)
 		}
 	}
+	// The concurrent phase works on a SECOND, untouched pair of complete maps with the same
+	// content: if the library writes to a complete map on the normal path, that write must
+	// happen under concurrency (not be absorbed by the sequential reference pass above).
+	tm, nm = sharedMaps()
 	nmSnap := copyNames(nm)
 	tmLen := len(tm)
 	old := runtime.GOMAXPROCS(c.M)
